@@ -481,7 +481,8 @@ def run_check(check_id: str, tier: str, seed: int, jobs: int | None = None, only
         handles = {i: pool.apply_async(_run_case, (all_tasks[i],)) for i in order}
         for i, h in handles.items():
             try:
-                results[i] = h.get(timeout=getattr(mod, "CASE_TIMEOUT", 1500))
+                # (a worker that dies - e.g. a crash inside the solver library - loses its task: the wait is bounded)
+                results[i] = h.get(timeout=getattr(mod, "CASE_TIMEOUT", 1500) if tier != "quick" else min(1500, getattr(mod, "CASE_TIMEOUT", 1500)))
             except mp.TimeoutError:
                 results[i] = {"case": all_tasks[i][1]["name"], "canary": all_tasks[i][2]["name"] if all_tasks[i][2] else None, "status": "crash", "msg": "case timeout"}
     case_results = results[: len(tasks)]
